@@ -556,8 +556,11 @@ pub fn code_quote(push_state: &mut PushState, _instruction_cache: &InstructionCa
 pub fn code_rand(push_state: &mut PushState, instruction_cache: &InstructionCache) {
     if let Some(size_limit) = push_state.int_stack.pop() {
         let limit = cmp::min(
-            i32::abs(size_limit),
-            i32::abs(push_state.configuration.max_points_in_random_expressions),
+            size_limit.unsigned_abs(),
+            push_state
+                .configuration
+                .max_points_in_random_expressions
+                .unsigned_abs(),
         );
         if let Some(rand_item) =
             CodeGenerator::random_code(&push_state, &instruction_cache, limit as usize)
